@@ -1,6 +1,7 @@
 package sim
 
 import (
+	"bytes"
 	"context"
 	"fmt"
 	"io"
@@ -431,7 +432,17 @@ func (w *World) Run(ex *Exchange) {
 			synctest.Wait() // whatever the cache still does with this response happens first
 		}
 		if !spec.KeepBody && resp.Body != nil {
-			b, rerr := io.ReadAll(resp.Body)
+			var b []byte
+			var rerr error
+			if ex.ID%2 == 1 {
+				// every other caller copies the body the way io.Copy does (which
+				// prefers the body's own WriteTo, if it has one)
+				var buf bytes.Buffer
+				_, rerr = io.Copy(&buf, resp.Body)
+				b = buf.Bytes()
+			} else {
+				b, rerr = io.ReadAll(resp.Body)
+			}
 			ex.Body = b
 			if rerr != nil {
 				ex.BodyErr = rerr.Error()
